@@ -59,6 +59,7 @@ impl Scenario for C17 {
         let mut threads = Vec::new();
         let idle_total;
         let mut silence_at = None;
+        let mut late_open_ok: Option<(u64, u64)> = None;
         match pat {
             6 if h > 0 => {
                 // the heartbeat is negotiated with TuneOk; the server reads Open and never answers: the attempt
@@ -70,6 +71,16 @@ impl Scenario for C17 {
                 idle_total = if h == 0 { 10_000 * SEC } else { 20 * hs };
                 if h > 0 {
                     broker.heartbeat_every_ns = Some(hs / 2);
+                }
+                // one run in three: the server is slow with its OpenOk, which arrives about when a heartbeat timer
+                // started at Tune falls due, while the I/O thread is descheduled: the timer's wake-up and the
+                // OpenOk reach it in one batch, in either order; the timers must survive the end of the handshake
+                if h > 0 && pat == 0 && cs.choose("late_open_ok", 3) == 0 {
+                    let k = 1 + cs.choose("late_open_ok_k", 3) as u64;
+                    let c = k * hs / 2 + 50_000_000;
+                    let from = c.saturating_sub(150_000_000);
+                    broker.open_ok_delay_ns = from + cs.choose("late_open_ok_ms", 300) as u64 * 1_000_000;
+                    late_open_ok = Some((from, c + 160_000_000));
                 }
                 owner_ops.push(OwnerOp::SleepNs(idle_total));
             }
@@ -175,10 +186,14 @@ impl Scenario for C17 {
             for (g, t) in gate_times {
                 crate::world::call_in(t, move |_| amiquip_simrt::gate_open(g));
             }
+            if let Some((from, to)) = late_open_ok {
+                crate::world::call_in(from, move |_| amiquip_simrt::stall_thread_named("amiquip-io", to));
+            }
         });
         fill_common(&mut rep, &res, &world);
         rep.sample = serde_json::json!({"h": h, "pattern": PATTERNS[pat], "client_option": cli_hb, "server_tune": srv_hb, "silence_at_ns": silence_at, "simulated_ns": res.run.fin.sim_ns});
         rep.count(&format!("c17.pattern.{}", PATTERNS[pat]), 1);
+        rep.count("c17.late_open_ok_with_stalled_io_thread", late_open_ok.is_some() as u64);
         for p in &res.run.panics {
             rep.violate("panic", format!("{}@{}", p.thread, p.location), format!("{} panicked: {}", p.thread, p.message));
         }
